@@ -26,11 +26,15 @@ func sliceFromArray(arrValue reflect.Value) reflect.Value {
 	arrType := arrValue.Type()
 	sliceType := reflect.SliceOf(arrType.Elem())
 	sliceValue := reflect.MakeSlice(sliceType, arrType.Len(), arrType.Len())
-	// copy element-wise: reflect.Copy reads the wrong memory for a non-addressable
-	// one-element array of a pointer-shaped type (map, pointer), which is stored directly in the interface.
-	for i := range arrType.Len() {
-		sliceValue.Index(i).Set(arrValue.Index(i))
+	// reflect.Copy reads the wrong memory for an array that is stored directly in the interface word instead of
+	// behind a pointer. Only a non-addressable one-element array of a pointer-shaped type (map, pointer, ...) is
+	// stored like that, so only that case is copied element-wise; all other arrays (e.g. [32]byte) keep the fast path.
+	if !arrValue.CanAddr() && arrType.Len() == 1 {
+		sliceValue.Index(0).Set(arrValue.Index(0))
+
+		return sliceValue
 	}
+	reflect.Copy(sliceValue, arrValue)
 
 	return sliceValue
 }
